@@ -28,7 +28,7 @@ LEVEL = "model_checking"
 RULE = ("(a) states = (iteration, alpha, last change levels, converged) of the real newton_raphson driven by a stub "
         "linearisation; letters = per-unknown change level in {0.5,1,2,4}xtol or NaN (uniform or one unknown "
         "deviating) x residual level in {0.5,1,2}xtol_res or NaN; all sequences up to max_iter, for the hydraulic, "
-        "thermal and bidirectional stage x {constant, automatic, unknown method} x initial alpha {1, 0.1}; "
+        "thermal and bidirectional stage x {constant, automatic, unknown method} x initial alpha {1, 0.1, 0.01}; "
         "(b) all paths of the TLC state graph of tla/NewtonDriver.tla replayed on the real driver; "
         "(c) BFS over histories of pipeflow calls (modes x budgets x tolerances x damping x feasible/infeasible edits) "
         "on one net object; (d) faulty spsolve answers {NaN, one NaN, +inf, zeros} at every solve index.")
@@ -701,7 +701,8 @@ def cases(tier):
     mi = 3 if tier == "quick" else 4
     for stage in ("hydraulics", "heat", "bidir"):
         for method in ("constant", "automatic", "no_such_method"):
-            for alpha in (1.0, 0.1):
+            # 0.01: a user-chosen start factor from which one accepted step ends at 0.1 (still damped)
+            for alpha in (1.0, 0.1, 0.01):
                 out.append({"part": "a", "stage": stage, "method": method, "alpha": alpha, "max_iter": mi, "tier": tier})
     mt = 4 if tier == "quick" else 6
     for stage in ("hydraulics", "heat", "bidir"):
